@@ -103,3 +103,13 @@ Print Assumptions C04_pure_rejects.
 Print Assumptions C04_pure_call_rejects.
 Print Assumptions C04_impure_not_pure.
 Print Assumptions C04_impure_where_pu_declared_refuted.
+
+(* ---- source tie: the hand-written model behind these theorems mirrors the files below; the digests of their
+   functions regenerated from /repo on this run equal the reviewed ones (coq/Doc/DocSrcDigest.v).  Any edit of
+   such a function breaks this obligation: the differential tie and the oracle then decide (tools/check.py). *)
+From Sylt Require Doc.SrcDigest Doc.DocSrcDigest Gen.GenSrcDigest.
+Theorem C04_model_sources_reviewed :
+  Sylt.Doc.SrcDigest.sources_reviewed ["sylt-compiler/src/typechecker.rs"%string; "sylt-compiler/src/ty.rs"%string]
+    Sylt.Doc.DocSrcDigest.doc_src_digests Sylt.Gen.GenSrcDigest.src_digests = true.
+Proof. vm_compute. reflexivity. Qed.
+Print Assumptions C04_model_sources_reviewed.
